@@ -19,19 +19,27 @@ def join(a, b):
 
 
 class Interp:
-    def __init__(self, body, input_pred, max_paths=512):
+    def __init__(self, body, input_pred, max_paths=512, need_result=True):
         """input_pred(place_dict) -> True when the place denotes the abstract input"""
         self.b = body
         self.input_pred = input_pred
         self.max_paths = max_paths
+        self.need_result = need_result
+        self.subs = []      # (minuend interval, subtrahend interval) of every subtraction evaluated
 
     def op(self, o, env, inp):
         if "const" in o:
             v = o["const"].get("value")
-            if v is None and o["const"].get("item") and o["const"]["item"] in self.b.facts.consts:
+            if v is None and o["const"].get("item") and o["const"]["item"] in self.b.facts.consts and o["const"].get("ty") in U:
+                # only plain integers: a newtype constant (Duration) evaluates to its raw representation (ticks)
                 v = self.b.facts.consts[o["const"]["item"]].get("value")
             if v is None and o["const"].get("item", "").endswith("::BITS"):
                 v = 32
+            if v is None and o["const"].get("item") in self.b.facts.bodies:
+                # a named constant that is computed (`const T: Duration = Duration::from_millis(T_MS)`)
+                cb = self.b.facts.bodies[o["const"]["item"]]
+                if cb.kind in ("const", "assoc_const") and len(cb.blocks) < 12:
+                    return Interp(cb, lambda p_: False).run((0, 0))
             return (v, v) if v is not None else TOP
         p = o.get("copy") or o.get("move")
         return self.place(p, env, inp)
@@ -41,6 +49,10 @@ class Interp:
             return inp
         if not p["proj"]:
             return env.get(p["l"], TOP)
+        # captured variable of a closure value built in this body (the closure was inlined by the normal form)
+        cl = env.get(("clos", p["l"]))
+        if cl is not None and isinstance(p["proj"][0], dict) and p["proj"][0].get("name") in cl and all(e == "deref" for e in p["proj"][1:]):
+            return cl[p["proj"][0]["name"]]
         # field .0 / .1 of a checked-arithmetic tuple
         if len(p["proj"]) == 1 and isinstance(p["proj"][0], dict) and "f" in p["proj"][0] and p["proj"][0].get("of") == "tuple":
             t = env.get(("tuple", p["l"]))
@@ -70,6 +82,7 @@ class Interp:
         if op.startswith("Add"):
             return (a[0] + b[0], a[1] + b[1])
         if op.startswith("Sub"):
+            self.subs.append((a, b))
             lo, hi = a[0] - b[1], a[1] - b[0]
             return (lo, hi) if lo >= 0 else TOP
         if op.startswith("Mul"):
@@ -108,6 +121,16 @@ class Interp:
         p = c.path or ""
         nm = p.rsplit("::", 1)[-1]
         a = args[0] if args else TOP
+        # core::time::Duration in milliseconds
+        if "Duration" in p and a is not TOP:
+            if nm == "as_millis":
+                return a
+            if nm == "as_secs":
+                return (a[0] // 1000, a[1] // 1000)
+            if nm == "from_millis":
+                return a
+            if nm == "from_secs":
+                return (a[0] * 1000, a[1] * 1000)
         if nm == "leading_zeros" and a is not TOP:
             w = 32 if "u32" in p else (64 if ("u64" in p or "usize" in p) else (16 if "u16" in p else (8 if "u8" in p else None)))
             if w is None:
@@ -149,7 +172,12 @@ class Interp:
                 l = s["dst"]["l"]
                 rv = s["rv"]
                 v = TOP
+                if "agg" in rv and rv["agg"]["kind"] == "closure":
+                    env[("clos", l)] = {n_: self.op(o_, env, inp) for n_, o_ in zip(rv["agg"].get("fields", []), rv["ops"])}
                 if "use" in rv:
+                    src_ = rv["use"].get("move") or rv["use"].get("copy")
+                    if src_ is not None and not src_["proj"] and ("clos", src_["l"]) in env:
+                        env[("clos", l)] = env[("clos", src_["l"])]
                     v = self.op(rv["use"], env, inp)
                 elif "bin" in rv:
                     x = self.op(rv["a"], env, inp)
@@ -170,11 +198,16 @@ class Interp:
                 elif "ref" in rv:
                     # &place: remember as alias of the value (used for by-reference method receivers)
                     v = self.place(rv["ref"], env, inp)
+                elif "agg" in rv and rv["agg"]["kind"] == "adt" and len(rv["ops"]) == 1:
+                    # Some(x) / Ok(x): the payload's interval
+                    v = self.op(rv["ops"][0], env, inp)
                 env[l] = v
             t = blk["term"]
             k = t["k"]
             if k == "return":
                 r = env.get(0, TOP)
+                if r is TOP and not self.need_result:
+                    return
                 if r is TOP:
                     top[0] = True
                 else:
@@ -214,6 +247,7 @@ class Interp:
             top[0] = True
 
         go(0, {}, frozenset())
+        self.aborted = top[0]
         if top[0] or result[0] is None:
             return TOP
         return result[0]
